@@ -162,6 +162,17 @@ theorem in_flight_runs_on' (fuel : Nat) (c c' : Conn) (r : PRes)
     simp only [hsCount] at hcount
     omega
 
+/-- The unqualified form of `in_flight_runs_on'` (without "no `HS(` event was appended", i.e. without
+"the poll did not pass through `parse_request`").  It is false for the model — and for the Rust: take
+a `closing` phase of a KeepConn request whose successor request is already buffered; without the
+flag the poll goes `closing → parseReq → handler` and may end `pending` inside the *next* handler,
+with the flag it ends `finished` at the `parseReq` (`in_flight_then_stop`).  That is the intended
+graceful-shutdown behaviour; `in_flight_runs_on` / `in_flight_runs_on'` are the true (`_partial`) forms. -/
+def in_flight_runs_on_full : Prop :=
+  ∀ (fuel : Nat) (c c' : Conn) (r : PRes), c.phase.inFlight = true →
+    pollConn fuel { c with stop := false } = (c', r) → c'.phase.inFlight = true →
+    pollConn fuel { c with stop := true } = ({ c' with stop := true }, r)
+
 /-! ## Concrete instances (non-vacuity) -/
 
 def exReq : Request := { id := 1, role := 1, flags := 1, env := [] }
